@@ -53,9 +53,9 @@ theorem C06_tree_siblings (k : Kind) (ks : List PT) (h : (PT.nt k ks).WF) :
     ks.Pairwise (fun a b => a.posEnd ≤ b.pos) :=
   h.kids_ordered
 
-theorem build_span_post (mm : Nat → List MetaAttr) (root : PT) (v : Val) (s : St) (hwf : root.WF)
-    (h : build mm root = some (v, s)) : Post root St.empty s root.pos root.posEnd := by
-  refine processNode_span mm root root St.empty v s hwf (PT.Sub.refl root) Inv.empty ?_ ?_ h
+theorem build_span_post (tr : Heap → Nat → Bool) (mm : Nat → List MetaAttr) (root : PT) (v : Val) (s : St) (hwf : root.WF)
+    (h : build tr mm root = some (v, s)) : Post root St.empty s root.pos root.posEnd := by
+  refine processNode_span tr mm root root St.empty v s hwf (PT.Sub.refl root) Inv.empty ?_ ?_ h
   · refine ⟨?_, ?_, ?_, ?_⟩ <;> simp [St.empty, contIds, spanOf, Heap.get]
   · refine ⟨?_, ?_⟩ <;> simp [St.empty]
 
@@ -63,12 +63,12 @@ theorem build_span_post (mm : Nat → List MetaAttr) (root : PT) (v : Val) (s : 
 was created for a common-rule node of the tree and its `_tx_position` / `_tx_position_end` are
 the start of that node's first terminal and the end of its last terminal; the slice is not
 empty and lies inside the span of the whole tree. -/
-theorem C06_span (mm : Nat → List MetaAttr) (root : PT) (v : Val) (s : St) (hwf : root.WF)
-    (h : build mm root = some (v, s)) (x : Nat) (o : HObj) (hx : s.heap.get x = some o) :
+theorem C06_span (tr : Heap → Nat → Bool) (mm : Nat → List MetaAttr) (root : PT) (v : Val) (s : St) (hwf : root.WF)
+    (h : build tr mm root = some (v, s)) (x : Nat) (o : HObj) (hx : s.heap.get x = some o) :
     ∃ cls ks, PT.Sub (.nt (.obj cls) ks) root ∧
       o.pos = firstPos (PT.nt (.obj cls) ks).leaves ∧ o.posEnd = lastEnd (PT.nt (.obj cls) ks).leaves ∧
       o.pos < o.posEnd ∧ root.pos ≤ o.pos ∧ o.posEnd ≤ root.posEnd := by
-  have post := build_span_post mm root v s hwf h
+  have post := build_span_post tr mm root v s hwf h
   have hsp : spanOf s.heap x = some (o.pos, o.posEnd) := by simp [spanOf, hx]
   obtain ⟨cls, ks, hsub, heq⟩ := post.si.exact x _ hsp
   have hn := hwf.sub hsub
@@ -83,23 +83,23 @@ theorem C06_span (mm : Nat → List MetaAttr) (root : PT) (v : Val) (s : St) (hw
 
 /-- **Nesting.**  The slice of an object held by a containment attribute lies inside the slice
 of its container. -/
-theorem C06_nesting (mm : Nat → List MetaAttr) (root : PT) (v : Val) (s : St) (hwf : root.WF)
-    (h : build mm root = some (v, s)) (p c : Nat) (op oc : HObj) (hc : c ∈ contIds s.heap p)
+theorem C06_nesting (tr : Heap → Nat → Bool) (mm : Nat → List MetaAttr) (root : PT) (v : Val) (s : St) (hwf : root.WF)
+    (h : build tr mm root = some (v, s)) (p c : Nat) (op oc : HObj) (hc : c ∈ contIds s.heap p)
     (hp : s.heap.get p = some op) (hcg : s.heap.get c = some oc) :
     op.pos ≤ oc.pos ∧ oc.posEnd ≤ op.posEnd := by
-  have post := build_span_post mm root v s hwf h
+  have post := build_span_post tr mm root v s hwf h
   have := post.si.nest p c (op.pos, op.posEnd) (oc.pos, oc.posEnd) hc (by simp [spanOf, hp]) (by simp [spanOf, hcg])
   simpa using this
 
 /-- **Objects of one list attribute are ordered and do not overlap**: for a containment
 attribute holding the list `vs`, each object ends before the next one starts (in fact: before
 every later one). -/
-theorem C06_siblings_ordered (mm : Nat → List MetaAttr) (root : PT) (v : Val) (s : St) (hwf : root.WF)
-    (h : build mm root = some (v, s)) (p : Nat) (o : HObj) (m : MetaAttr) (vs : List Val)
+theorem C06_siblings_ordered (tr : Heap → Nat → Bool) (mm : Nat → List MetaAttr) (root : PT) (v : Val) (s : St) (hwf : root.WF)
+    (h : build tr mm root = some (v, s)) (p : Nat) (o : HObj) (m : MetaAttr) (vs : List Val)
     (hp : s.heap.get p = some o) (hm : (m, AVal.many vs) ∈ o.attrs) (hcont : m.cont = true) :
     (vs.filterMap Val.objId?).Pairwise
       (fun a b => ∀ oa ob, s.heap.get a = some oa → s.heap.get b = some ob → oa.posEnd ≤ ob.pos) := by
-  have post := build_span_post mm root v s hwf h
+  have post := build_span_post tr mm root v s hwf h
   have hincr := post.si.incr p o m vs hp hm hcont
   have hmem : ∀ e ∈ vs.filterMap Val.objId?, e ∈ contIds s.heap p := by
     intro e he
@@ -125,10 +125,10 @@ theorem C06_location {h : Heap} (T : TreeHeap h) (input : Nat → List Char) (fi
 
 /-- … and for the heap built from a well-formed parse tree `nchar` is the (positive) length of
 the object's slice. -/
-theorem C06_location_nchar (mm : Nat → List MetaAttr) (root : PT) (v : Val) (s : St) (hwf : root.WF)
-    (h : build mm root = some (v, s)) (x : Nat) (o : HObj) (hx : s.heap.get x = some o) :
+theorem C06_location_nchar (tr : Heap → Nat → Bool) (mm : Nat → List MetaAttr) (root : PT) (v : Val) (s : St) (hwf : root.WF)
+    (h : build tr mm root = some (v, s)) (x : Nat) (o : HObj) (hx : s.heap.get x = some o) :
     (o.posEnd : Int) - (o.pos : Int) = ((o.posEnd - o.pos : Nat) : Int) ∧ 0 < o.posEnd - o.pos := by
-  obtain ⟨_, _, _, _, _, hlt, _, _⟩ := C06_span mm root v s hwf h x o hx
+  obtain ⟨_, _, _, _, _, hlt, _, _⟩ := C06_span tr mm root v s hwf h x o hx
   omega
 
 /-! ## non-vacuity: the model of `Props/C05.lean` with layout
